@@ -19,6 +19,9 @@ rp, rps, rpc = C.rp, C.rps, C.rpc
 
 FINAL = [rps.DONE, rps.FAILED, rps.CANCELED]
 
+# extension points for checks which reuse this world (C09, C05, C11)
+HOOKS = {'after_start': None, 'final': None}
+
 
 # ------------------------------------------------------------------------------
 # scenario generation
@@ -258,6 +261,8 @@ def run(seed, sc, trace=None, tier='quick'):
                     raise
                 raise K.HarnessError('component startup failed: %r' % e)
             sim.freeze('Idler')
+            if HOOKS.get('after_start'):
+                HOOKS['after_start'](sim, st)
             rm = reg['rm.%s' % lay['rm'].lower()]
             if not rm:
                 # NOOP executor alone never initialises the RM
@@ -455,6 +460,8 @@ def run(seed, sc, trace=None, tier='quick'):
 
         def final(sim):
             oracles(sim, sc, st)
+            if HOOKS.get('final'):
+                HOOKS['final'](sim, sc, st)
 
         cfg['final'] = final
         return driver
@@ -485,10 +492,17 @@ def make_check(prop, focuses, knobs, nontrivial):
 
     def gen(rng, tier):
         focus = rng.choice(focuses)
+        if focus == 'nodelist':
+            from . import nodelist
+            return nodelist.gen(rng, tier)
         return gen_scenario(rng, tier, focus, knobs)
 
     def run_(seed, sc, trace=None, tier='quick'):
-        res = run(seed, sc, trace, tier)
+        if sc.get('focus') == 'nodelist':
+            from . import nodelist
+            res = nodelist.run(seed, sc, trace, tier)
+        else:
+            res = run(seed, sc, trace, tier)
         res['violations'] = [x for x in res['violations']
                              if x['property'] == prop]
         if res['status'] == 'violation' and not res['violations']:
@@ -500,6 +514,9 @@ def make_check(prop, focuses, knobs, nontrivial):
 
 
 def shrink(sc):
+    if sc.get('focus') == 'nodelist':
+        from . import nodelist
+        return nodelist.shrink(sc)
     out = list()
     tasks, ops = sc['tasks'], sc['ops']
     n = len(tasks)
